@@ -7,6 +7,7 @@ import (
 	"go/constant"
 	"go/token"
 	"go/types"
+	"os"
 	"sort"
 	"strings"
 
@@ -60,13 +61,14 @@ type Exec struct {
 	work      []*State
 	ownerTags []string
 	iterSites map[*ssa.Function]int
+	exitBound map[string]bool
 	qctr      int
 }
 
 func NewExec(w *World, fn *ssa.Function, spec *FuncSpec) *Exec {
 	return &Exec{w: w, top: fn, spec: spec, names: map[string]int{}, locIDs: map[string]*Term{}, locBack: map[string]*Loc{},
 		cloBack: map[string]*Closure{}, maxPaths: 4096, inlined: map[string]bool{}, assumed: map[string]bool{}, havocked: map[string]bool{},
-		loops: map[*ssa.Function]*loopInfo{}, iterSites: map[*ssa.Function]int{}}
+		loops: map[*ssa.Function]*loopInfo{}, iterSites: map[*ssa.Function]int{}, exitBound: map[string]bool{}}
 }
 
 func fnKey(fn *ssa.Function) string {
@@ -119,6 +121,9 @@ func (x *Exec) oblige(s *State, kind, name string, goal *Term, tags []string, po
 func (x *Exec) Run() (obls []*Obligation, err error) {
 	defer func() {
 		if r := recover(); r != nil {
+			if os.Getenv("GOVC_PANIC") != "" {
+				panic(r)
+			}
 			if se, ok := r.(subsetErr); ok {
 				err = se
 				return
@@ -128,6 +133,7 @@ func (x *Exec) Run() (obls []*Obligation, err error) {
 	}()
 	x.ownerTags = specTags(x.spec)
 	x.safety = len(x.spec.Safety) > 0
+	x.loadAxioms()
 	s := &State{cellVal: map[*Cell]Value{}, heap: map[string]*Term{}, heapT: map[string]types.Type{}, ghostI: map[*ssa.BasicBlock]*Term{}}
 	s.assume(Ge(Var("alloc0", SInt), IntT(0)))
 	fr := x.newFrame(x.top, nil)
@@ -160,6 +166,15 @@ func (x *Exec) Run() (obls []*Obligation, err error) {
 			return nil, x.subsetf("path cap %d exceeded", x.maxPaths)
 		}
 	}
+	for ci, c := range x.spec.Exits {
+		label := c.Label
+		if label == "" {
+			label = fmt.Sprintf("x%d", ci)
+		}
+		if !x.exitBound[label] {
+			return nil, x.subsetf("exit clause %q binds at no return site (a local it mentions is not in scope anywhere)", label)
+		}
+	}
 	return append(x.obls, x.covers...), nil
 }
 
@@ -180,6 +195,9 @@ func specTags(fs *FuncSpec) []string {
 	for _, c := range fs.Requires {
 		add(c.Tags)
 	}
+	for _, c := range fs.Exits {
+		add(c.Tags)
+	}
 	for _, l := range fs.Loops {
 		for _, c := range l.Invariants {
 			add(c.Tags)
@@ -189,6 +207,12 @@ func specTags(fs *FuncSpec) []string {
 		for _, c := range l.Invariants {
 			add(c.Tags)
 		}
+		for _, c := range l.Visits {
+			add(c.Tags)
+		}
+	}
+	for _, f := range fs.Fresh {
+		add(f.Tags)
 	}
 	add(fs.Safety)
 	add(fs.Frame)
@@ -661,6 +685,19 @@ func (x *Exec) store(s *State, fr *Frame, addr Value, v Value, in ssa.Instructio
 		x.frameCheck(s, fr, l.Ref, l.RootT, in.Pos(), in)
 	}
 	x.writeLoc(s, l, v)
+}
+
+func (x *Exec) frameCheckCond(s *State, fr *Frame, l *Loc, pos token.Pos, in ssa.Instruction) {
+	if l.Cond == nil {
+		x.frameCheck(s, fr, l.Ref, l.RootT, pos, in)
+		return
+	}
+	if len(x.spec.Frame) == 0 {
+		return
+	}
+	t := s.clone()
+	t.assume(l.Cond)
+	x.frameCheck(t, t.top(), l.Ref, l.RootT, pos, in)
 }
 
 // frameCheck: a store to a heap object must target an object allocated during this call or a
@@ -1174,6 +1211,54 @@ func (x *Exec) checkPost(s *State, fr *Frame, rs []Value, in *ssa.Return) {
 			x.oblige(s, "post", nm, g, c.Tags, in.Pos(), label)
 		}
 	}
+	// exit clauses: body-only assertions at return sites; a clause whose locals are not in scope at this
+	// site is skipped here (every exit clause must bind at one site at least, see checkExitBound)
+	for ci, c := range x.spec.Exits {
+		label := c.Label
+		if label == "" {
+			label = fmt.Sprintf("x%d", ci)
+		}
+		var goal *Term
+		func() {
+			defer func() {
+				if r := recover(); r != nil {
+					if se, ok := r.(specErr); ok && strings.Contains(se.msg, "unknown identifier") {
+						goal = nil
+						return
+					}
+					panic(r)
+				}
+			}()
+			goal = x.evalBool(ctx, c.Expr)
+		}()
+		if goal == nil {
+			continue
+		}
+		x.exitBound[label] = true
+		for k, g := range conjuncts(goal) {
+			nm := fmt.Sprintf("exit#%s@%s", label, retName)
+			if k > 0 {
+				nm = fmt.Sprintf("exit#%s.%d@%s", label, k, retName)
+			}
+			x.oblige(s, "post", nm, g, c.Tags, in.Pos(), label)
+		}
+	}
+	// `fresh r [when c]`: the result is an object allocated during this call
+	for _, f := range x.spec.Fresh {
+		v, ok := env[f.Name]
+		if !ok || v.Term == nil {
+			continue
+		}
+		g := Gt(v.Term, Var("alloc0", SInt))
+		if f.When != nil {
+			g = Implies(x.evalBool(ctx, f.When), g)
+		}
+		tags := f.Tags
+		if len(tags) == 0 {
+			tags = x.ownerTags
+		}
+		x.oblige(s, "post", fmt.Sprintf("post#fresh.%s@%s", f.Name, retName), g, tags, in.Pos(), "fresh "+f.Name)
+	}
 	if !s.dead {
 		x.covers = append(x.covers, &Obligation{Name: x.uniq("cover.ret." + retName), Func: shortFn(fnKey(x.top)), Kind: "cover", Goal: TFalse,
 			PC: append([]*Term{}, s.pc...), Expect: "sat", Tags: x.ownerTags, Pos: x.posOf(in.Pos()), Path: append([]string{}, s.path...)})
@@ -1200,4 +1285,50 @@ func (x *Exec) retSiteOrdinal(fn *ssa.Function, in *ssa.Return) int {
 		}
 	}
 	return -1
+}
+
+// loadAxioms evaluates the `axiom` clauses of the spec files once and registers them; an axiom is
+// emitted into a VC when the VC mentions any symbol the axiom mentions.
+func (x *Exec) loadAxioms() {
+	for _, sf := range x.w.Specs {
+		for _, ax := range sf.Axioms {
+			name := "spec:" + ax.Name
+			dup := false
+			for _, a := range x.w.Reg.axioms {
+				if a.Name == name {
+					dup = true
+				}
+			}
+			if dup {
+				continue
+			}
+			st := &State{cellVal: map[*Cell]Value{}, heap: map[string]*Term{}, heapT: map[string]types.Type{}, ghostI: map[*ssa.BasicBlock]*Term{}}
+			t := x.evalBool(&EvalCtx{x: x, st: st, old: st, env: map[string]Value{}, sf: sf}, ax.Expr)
+			consts := map[string]string{}
+			funs := map[string]bool{}
+			sorts := map[string]bool{}
+			q := false
+			x.w.Reg.collect(t, map[string]bool{}, consts, funs, sorts, &q)
+			var trig []string
+			for f := range funs {
+				if _, isCtor := x.w.Reg.ctorOf[f]; isCtor {
+					continue
+				}
+				if _, isSel := x.w.Reg.selOf[f]; isSel {
+					continue
+				}
+				if strings.HasPrefix(f, "(_ is ") {
+					continue
+				}
+				trig = append(trig, f)
+			}
+			for cname := range consts {
+				if x.w.Reg.strLits[cname] == nil {
+					trig = append(trig, cname)
+				}
+			}
+			sort.Strings(trig)
+			x.w.Reg.AddAxiom(name, trig, t)
+		}
+	}
 }
